@@ -85,12 +85,17 @@ def _impl_one(op):
     try:
         old = signal.signal(signal.SIGALRM, on_alarm)
     except ValueError:          # not in the main thread: run unguarded
-        return _impl_do(op)
+        try:
+            return _impl_do(op)
+        except canon.NoSuchType as e:
+            return [f"R no-such-type {e}"]
     signal.setitimer(signal.ITIMER_REAL, limit)
     try:
         return _impl_do(op)
     except _Hang:
         return ["R hang"]
+    except canon.NoSuchType as e:
+        return [f"R no-such-type {e}"]
     finally:
         signal.setitimer(signal.ITIMER_REAL, 0)
         signal.signal(signal.SIGALRM, old)
